@@ -61,7 +61,8 @@ impl<I: RecvmsgSyscall> RecvmsgSyscall for NioRecvmsgSyscall<I> {
         let mut r = 0;
         let mut index = 0;
         for iovec in &vec {
-            let mut offset = received.saturating_sub(length);
+            let stage = length;
+            let mut offset = received.saturating_sub(stage);
             length += iovec.iov_len;
             if received > length {
                 index += 1;
@@ -71,25 +72,16 @@ impl<I: RecvmsgSyscall> RecvmsgSyscall for NioRecvmsgSyscall<I> {
             for i in vec.iter().skip(index) {
                 iov.push(*i);
             }
-            cfg_if::cfg_if! {
-                if #[cfg(any(
-                    target_os = "linux",
-                    target_os = "l4re",
-                    target_os = "android",
-                    target_os = "emscripten"
-                ))] {
-                    let msg_iovlen = vec.len();
-                } else {
-                    let msg_iovlen = c_int::try_from(iov.len()).unwrap_or_else(|_| {
-                        panic!("{} msghdr.msg_iovlen overflow", crate::common::constants::SyscallName::recvmsg)
-                    });
-                }
-            }
+            // the element count always describes the rebuilt array that is passed down
+            let msg_iovlen = iov.len().try_into().unwrap_or_else(|_| {
+                panic!("{} msghdr.msg_iovlen overflow", crate::common::constants::SyscallName::recvmsg)
+            });
             while received < length && left_time > 0 {
                 if 0 != offset {
+                    // `offset` counts from the start of the caller's current iovec
                     iov[0] = libc::iovec {
-                        iov_base: (iov[0].iov_base as usize + offset) as *mut c_void,
-                        iov_len: iov[0].iov_len - offset,
+                        iov_base: (iovec.iov_base as usize + offset) as *mut c_void,
+                        iov_len: iovec.iov_len - offset,
                     };
                 }
                 let mut arg = msghdr {
@@ -103,6 +95,8 @@ impl<I: RecvmsgSyscall> RecvmsgSyscall for NioRecvmsgSyscall<I> {
                 };
                 r = self.inner.recvmsg(fn_ptr, fd, &raw mut arg, flags);
                 if r == 0 {
+                    // end of stream: report what was received before it
+                    r = received.try_into().expect("received overflow");
                     std::mem::forget(vec);
                     if blocking {
                         set_blocking(fd);
@@ -115,7 +109,7 @@ impl<I: RecvmsgSyscall> RecvmsgSyscall for NioRecvmsgSyscall<I> {
                         r = received.try_into().expect("received overflow");
                         break;
                     }
-                    offset = received.saturating_sub(length);
+                    offset = received.saturating_sub(stage);
                 }
                 let error_kind = Error::last_os_error().kind();
                 if error_kind == ErrorKind::WouldBlock {
@@ -126,6 +120,9 @@ impl<I: RecvmsgSyscall> RecvmsgSyscall for NioRecvmsgSyscall<I> {
                     let wait_time = std::time::Duration::from_nanos(left_time)
                         .min(crate::common::constants::SLICE);
                     if EventLoops::wait_read_event(fd, Some(wait_time)).is_err() {
+                        if received > 0 {
+                            r = received.try_into().expect("received overflow");
+                        }
                         std::mem::forget(vec);
                         if blocking {
                             set_blocking(fd);
@@ -133,6 +130,10 @@ impl<I: RecvmsgSyscall> RecvmsgSyscall for NioRecvmsgSyscall<I> {
                         return r;
                     }
                 } else if error_kind != ErrorKind::Interrupted {
+                    // report what was transferred so far, the error only if nothing was
+                    if received > 0 {
+                        r = received.try_into().expect("received overflow");
+                    }
                     std::mem::forget(vec);
                     if blocking {
                         set_blocking(fd);
@@ -143,6 +144,9 @@ impl<I: RecvmsgSyscall> RecvmsgSyscall for NioRecvmsgSyscall<I> {
             if received >= length {
                 index += 1;
             }
+        }
+        if received > 0 {
+            r = received.try_into().expect("received overflow");
         }
         std::mem::forget(vec);
         if blocking {
